@@ -641,10 +641,8 @@ theorem submit_eff (s : State σ) (op : SubmitOp) (r : Req) :
   · exact UEff.note (core s) _ rfl
   · rename_i e bits _
     split
-    · split
-      · exact UEff.note (core s) _ rfl
-      · exact UEff.acceptDone (core s) r .shutdown [.sub r.rid (.badReq (.badRange e))]
-          (by simp [LogEntry.isDone]) (Or.inl rfl)
+    · exact UEff.acceptDone (core s) r (.badReq (.badRange e)) [.sub r.rid (.badReq (.badRange e))]
+        (by simp [LogEntry.isDone]) (Or.inr ⟨_, rfl⟩)
     · exact UEff.acceptDone (core s) r (.badReq (.badRange e)) [] (by simp) (Or.inr ⟨_, rfl⟩)
   · simp only []
     split
